@@ -150,6 +150,29 @@ impl Check for C15 {
                 }
                 *slot = Rx::Raw(s);
                 extra["slot"] = json!([mi, pi, in_la]);
+            } else if d.chance(40) {
+                // an unsupported (valued) class next to the supported class of the same name: a
+                // registry that identifies them would skip the validation of the second one
+                let (good, bad) = *d.pick(&[
+                    ("\\p{Alphabetic}", "\\p{Alphabetic=No}"),
+                    ("\\P{White_Space}", "\\p{White_Space!=Yes}"),
+                    ("\\p{Lowercase}", "\\p{Lowercase:No}"),
+                    ("\\pL", "\\p{L=x}"),
+                    ("[\\p{Math}a]", "[\\p{Math=Yes}a]"),
+                ]);
+                // the supported one goes into the first pattern of the first mode (registered first)
+                modes[0].pats[0].rx = Rx::Concat(vec![modes[0].pats[0].rx.clone(), Rx::Raw(good.to_string())]);
+                let (mi, pi, in_la) = (mi, pi, in_la);
+                let slot: &mut Rx = if in_la {
+                    &mut modes[mi].pats[pi].la.as_mut().unwrap().rx
+                } else {
+                    &mut modes[mi].pats[pi].rx
+                };
+                let old = slot.clone();
+                *slot = Rx::Concat(vec![old, Rx::Raw(bad.to_string())]);
+                extra["slot"] = json!([mi, pi, in_la]);
+                extra["depth"] = json!(1);
+                extra["snippet"] = json!(bad);
             } else {
                 let snippet = *d.pick(PLANTS);
                 let mut depth = 0;
